@@ -88,6 +88,8 @@ pub const FAMILIES: &[&str] = &[
     "hostile-pointer-ladder-with-labels",
     "hostile-overlong-chain-soa",
     "hostile-label-then-16-pointers-ladder",
+    "hostile-long-label-run-odd-steps",
+    "hostile-dname-into-pointer-chain",
 ];
 
 /// Families >= this index are expected to be rejected.
@@ -176,7 +178,7 @@ pub fn adversarial(rng: &mut Rng, fam: usize, target_len: usize) -> Vec<u8> {
             a.b[6..8].copy_from_slice(&n.to_be_bytes());
             a.done()
         }
-        8 | 9 | 10 | 11 | 12 => {
+        8 | 9 | 10 | 11 | 12 | 13 | 14 => {
             // a TXT record whose rdata hides: (8) a chain of k pointers each pointing at the previous one,
             // (9) a run of k one-byte labels, (10) k segments "label + pointer to the previous segment",
             // (11) like 8 but referenced from SOA records (two names each)
@@ -191,7 +193,7 @@ pub fn adversarial(rng: &mut Rng, fam: usize, target_len: usize) -> Vec<u8> {
             a.label(b"z").root();
             let mut head = rd;
             match fam {
-                8 | 11 => {
+                8 | 11 | 14 => {
                     let k = hidden / 2;
                     for _ in 0..k {
                         let here = a.pos();
@@ -199,12 +201,16 @@ pub fn adversarial(rng: &mut Rng, fam: usize, target_len: usize) -> Vec<u8> {
                         head = here;
                     }
                 }
-                9 => {
-                    // labels must precede their terminator: emit the run, then jump to the anchor
-                    let k = hidden / 2;
+                9 | 13 => {
+                    // labels must precede their terminator: emit the run, then jump to the anchor.
+                    // (13: labels of 2, 4 or 6 bytes, so that the running length steps over 255/256 without
+                    // landing on it: 3-, 5- and 7-byte steps)
+                    let l = if fam == 13 { *rng.pick(&[2usize, 4, 6]) } else { 1 };
+                    let k = hidden / (l + 1);
                     head = a.pos();
                     for _ in 0..k {
-                        a.label(&[*rng.pick(b"abcdefgh")]);
+                        let lab: Vec<u8> = (0..l).map(|_| *rng.pick(b"abcdefgh")).collect();
+                        a.label(&lab);
                     }
                     a.ptr(rd);
                 }
@@ -238,6 +244,9 @@ pub fn adversarial(rng: &mut Rng, fam: usize, target_len: usize) -> Vec<u8> {
             while a.pos() + 40 < target_len && n < 65000 && head < 0x3fff {
                 if fam == 11 {
                     a.ptr(head).rrfix(T_SOA, 1, 24).ptr(head).ptr(head).raw(&[0u8; 20]);
+                } else if fam == 14 {
+                    // DNAME targets must be pointer-free: refused at the first record today
+                    a.ptr(12).rrfix(T_DNAME, 1, 2).ptr(head);
                 } else {
                     a.ptr(head).rrfix(T_NS, 1, 2).ptr(head);
                 }
